@@ -211,6 +211,24 @@ def run_shard(spec, res):
                     except claripy.errors.ClaripyError:
                         pass
     elif k == "fp":
+        # constants written as Python floats that are not exactly representable, with the sort object itself and with
+        # equal copies of it (unpickled, rebuilt, taken from another expression)
+        import pickle
+
+        for S_, mk in (("F", claripy.FSORT_FLOAT), ("D", claripy.FSORT_DOUBLE)):
+            copies = [mk, pickle.loads(pickle.dumps(mk)), claripy.fp.FSort(mk.name, mk.exp, mk.mantissa), claripy.FPS("srt" + S_, mk, explicit_name=True).args[1], claripy.fp.FSort.from_size(mk.length)]
+            for sort_ in copies:
+                for val in (0.1, 1 / 3, 16777217.0, 1e-45, 3.4028235677973366e38, -0.1, 1e-320, 2.0**-150, 123456789.0, float("inf"), 0.0, -0.0, 1.0):
+                    for val_ in (val, rng.uniform(-1e6, 1e6)):
+                        try:
+                            a = claripy.FPV(val_, sort_)
+                        except claripy.errors.ClaripyError:
+                            continue
+                        res.count("fp_constants_with_sort_copies")
+                        feed("fpv-sort-copy", a, ["fpv-py", repr(val_), S_, "identical-sort" if sort_ is mk else "equal-sort"], None)
+                        b = claripy.FPV(val_, mk)
+                        if a is not b:
+                            res.violation({"kind": "metadata", "route": "fpv-sort-copy", "what": "same-constant-different-object", "case": ["fpv-py", repr(val_), S_], "observed": [repr(a.args), repr(b.args)]})
         for i in range(spec["n"]):
             d = c02.tree_case(rng, rng.choice("FD"), rng.choice([1, 2, 3]), concrete=rng.random() < 0.4) if i % 3 else c02.sym_case(rng)
             try:
